@@ -8,9 +8,13 @@ Open Scope Z_scope.
 
 Lemma lenZ_acc_spec v : forall acc, lenZ_acc v acc = acc + Z.of_nat (length v).
 Proof.
-  induction v as [|x v IH]; intros acc; cbn [lenZ_acc length].
-  - lia.
-  - rewrite IH. lia.
+  assert (H : forall n v, (length v <= n)%nat -> forall acc, lenZ_acc v acc = acc + Z.of_nat (length v)).
+  { induction n as [|n IH]; intros w Hw acc.
+    - destruct w; [cbn; lia|cbn [length] in Hw; lia].
+    - destruct w as [|x0 [|x1 [|x2 [|x3 [|x4 [|x5 [|x6 [|x7 w]]]]]]]];
+        cbn [lenZ_acc length]; try lia;
+        try (rewrite IH by (cbn [length] in *; lia); cbn [length]; lia). }
+  apply (H (length v)). lia.
 Qed.
 
 Lemma lenZ_spec v : lenZ v = Z.of_nat (length v).
